@@ -257,12 +257,6 @@ let verdict case impl =
     let cols = db_of cols in
     let (impl_ser, impl_rt) = split_rt impl in
     let m = ser_str (gen_ser_row d cols) in
-    (* known finding: inputs of the class are judged by the documented table even when the model
-       (which reproduces the defect) agrees with the implementation *)
-    if known_empty_flatten d cols && rdesc_nodup d &&
-       (match split_on ' ' impl_ser with "ok" :: _ -> true | _ -> false)
-    then "viol class=row-empty-flatten-hides-missing doc=reject model=" ^ m
-    else
     if m <> impl_ser then begin
       let doc =
         if not (rdesc_wf d) then None
